@@ -187,8 +187,11 @@ def specs(draw, recursive=False, weights=(0.0, 0.25, 0.5, 1.0, 2.0), max_nts=4, 
         nrules = _wchoice(draw, [(0, 1), (1, 6), (2, 5), (3, 2)]) if max_rules >= 3 else draw(st.integers(0, max_rules))
         if i == 0 and nrules == 0 and draw(st.integers(0, 3)) > 0:
             nrules = 1
-        allowed = nt_names if recursive else nt_names[i + 1:]
-        for _ in range(nrules):
+        allowed0 = nt_names if recursive else nt_names[i + 1:]
+        for rno in range(nrules):
+            # in recursive mode the first rule of a nonterminal is usually a base case (terminals only),
+            # so that least fixed points are usually non-zero
+            allowed = [] if (recursive and rno == 0 and nrules > 1 and draw(st.integers(0, 9)) < 7) else allowed0
             nodes = list(nts[x])
             ext = list(range(len(nodes)))
             edges = []
@@ -233,6 +236,37 @@ def specs(draw, recursive=False, weights=(0.0, 0.25, 0.5, 1.0, 2.0), max_nts=4, 
             if edges and draw(st.integers(0, 2)) == 0:
                 edges = list(draw(st.permutations(edges)))
             rules.append({'lhs': x, 'nodes': nodes, 'ext': ext, 'edges': edges})
+    if recursive:
+        tmp = {'nonterminals': nts, 'rules': rules, 'start': 'S', 'terminals': terms, 'node_labels': node_labels}
+        if not is_recursive(tmp):
+            # force a cycle through the start symbol: add an S-labelled edge to one of S's rules (keeping another
+            # rule as base case when there is one)
+            srules = [r for r in rules if r['lhs'] == 'S']
+            if not srules:
+                r = {'lhs': 'S', 'nodes': list(nts['S']), 'ext': list(range(len(nts['S']))), 'edges': []}
+                rules.append(r); srules = [r]
+            if len(srules) == 1 and draw(st.integers(0, 3)) > 0:
+                r0 = srules[0]
+                r = {'lhs': 'S', 'nodes': list(r0['nodes']), 'ext': list(r0['ext']), 'edges': [dict(e) for e in r0['edges']]}
+                rules.append(r)
+            else:
+                r = srules[-1]
+            att = []
+            for nl in nts['S']:
+                cands = [j for j, l in enumerate(r['nodes']) if l == nl]
+                if cands and draw(st.integers(0, 3)) > 0:
+                    att.append(draw(st.sampled_from(cands)))
+                else:
+                    r['nodes'].append(nl); att.append(len(r['nodes']) - 1)
+            r['edges'].append({'label': 'S', 'att': att})
+            if terminal_in_recursive and not any(e['label'] in terms for e in r['edges']):
+                lab = draw(st.sampled_from(t_names)); att = []
+                for nl in terms[lab]['type']:
+                    cands = [j for j, l in enumerate(r['nodes']) if l == nl]
+                    if cands: att.append(draw(st.sampled_from(cands)))
+                    else:
+                        r['nodes'].append(nl); att.append(len(r['nodes']) - 1)
+                r['edges'].append({'label': lab, 'att': att})
     wl = list(weights)
     for t in terms.values():
         shape = [node_labels[nl] for nl in t['type']]
